@@ -83,12 +83,34 @@ def tocoef(c):
 
 
 class Fr:
-    __slots__ = ("n", "d", "sp")
+    """n / prod(atom_k ^ e_k): the denominator is kept FACTORED as a multiset of monic 'atoms' (the polynomials that
+    were divided by), so a common denominator is a cheap lcm of exponent vectors - no polynomial gcd is ever needed."""
+    __slots__ = ("n", "D", "sp")
 
     def __init__(s, n, d=None, sp=None):
-        if d is not None and n == 0:
-            d = None
-        s.n, s.d, s.sp = n, d, sp
+        s.sp = sp
+        if d is None or n == 0:
+            s.n, s.D = n, ()
+        elif isinstance(d, tuple):
+            s.n, s.D = n, d
+        else:   # polynomial denominator -> one atom
+            lc = d.LC
+            atom = d.quo_ground(lc) if lc != 1 else d
+            if atom == 1:
+                s.n, s.D = n.quo_ground(lc), ()
+            else:
+                s.n, s.D = (n.quo_ground(lc) if lc != 1 else n), ((atom, 1),)
+
+    @property
+    def d(s):
+        """full denominator polynomial (None if 1)"""
+        if not s.D:
+            return None
+        r = None
+        for a, e in s.D:
+            for _ in range(e):
+                r = a if r is None else r * a
+        return r
 
     # ---- arithmetic
     def _lift(a, b):
@@ -100,22 +122,43 @@ class Fr:
             raise _NI()
         return Fr(a.n.ring(tocoef(b)), None, a.sp)
 
+    @staticmethod
+    def _lcm(Da, Db):
+        """returns (D, multiplier atoms for a, multiplier atoms for b)"""
+        if Da == Db:
+            return Da, (), ()
+        da, db = dict(Da), dict(Db)
+        D, ma, mb = {}, [], []
+        for at in set(da) | set(db):
+            ea, eb = da.get(at, 0), db.get(at, 0)
+            e = max(ea, eb)
+            D[at] = e
+            if e > ea:
+                ma.append((at, e - ea))
+            if e > eb:
+                mb.append((at, e - eb))
+        return tuple(sorted(D.items(), key=lambda t: id(t[0]) if False else hash(t[0]))), ma, mb
+
+    @staticmethod
+    def _times(n, mult):
+        for at, e in mult:
+            for _ in range(e):
+                n = n * at
+        return n
+
     def __add__(a, b):
         if isinstance(b, np.ndarray) and b.ndim > 0:
             return NotImplemented
         b = a._lift(b)
-        if a.d is b.d or (a.d is not None and b.d is not None and a.d == b.d):
-            return Fr(a.n + b.n, a.d, a.sp)
-        if a.d is None:
-            return Fr(a.n * b.d + b.n, b.d, a.sp)
-        if b.d is None:
-            return Fr(a.n + b.n * a.d, a.d, a.sp)
-        return Fr(a.n * b.d + b.n * a.d, a.d * b.d, a.sp)
+        if a.D == b.D:
+            return Fr(a.n + b.n, a.D, a.sp)
+        D, ma, mb = Fr._lcm(a.D, b.D)
+        return Fr(Fr._times(a.n, ma) + Fr._times(b.n, mb), D, a.sp)
 
     __radd__ = __add__
 
     def __neg__(a):
-        return Fr(-a.n, a.d, a.sp)
+        return Fr(-a.n, a.D, a.sp)
 
     def __sub__(a, b):
         if isinstance(b, np.ndarray) and b.ndim > 0:
@@ -125,17 +168,25 @@ class Fr:
     def __rsub__(a, b):
         return a._lift(b) - a
 
+    @staticmethod
+    def _mulD(Da, Db):
+        if not Da:
+            return Db
+        if not Db:
+            return Da
+        d = dict(Da)
+        for at, e in Db:
+            d[at] = d.get(at, 0) + e
+        return tuple(sorted(d.items(), key=lambda t: hash(t[0])))
+
     def __mul__(a, b):
         if isinstance(b, np.ndarray) and b.ndim > 0:
             return NotImplemented
         b = a._lift(b)
-        if a.d is None and b.d is None:
-            return Fr(a.n * b.n, None, a.sp)
-        if a.d is None:
-            return Fr(a.n * b.n, b.d, a.sp)
-        if b.d is None:
-            return Fr(a.n * b.n, a.d, a.sp)
-        return Fr(a.n * b.n, a.d * b.d, a.sp)
+        n = a.n * b.n
+        if n == 0:
+            return Fr(n, None, a.sp)
+        return Fr(n, Fr._mulD(a.D, b.D), a.sp)
 
     __rmul__ = __mul__
 
@@ -145,9 +196,18 @@ class Fr:
         b = a._lift(b)
         if b.n == 0:
             raise ZeroDivisionError("division by the zero element of the function field")
-        num = a.n if b.d is None else a.n * b.d
-        den = b.n if a.d is None else a.d * b.n
-        return Fr(num, den, a.sp)
+        if a.n == 0:
+            return Fr(a.n, None, a.sp)
+        num = Fr._times(a.n, b.D)
+        bn = b.n
+        if len(bn) == 1 and all(e == 0 for e in next(iter(bn.keys()))):      # constant
+            return Fr(num.quo_ground(bn.LC), a.D, a.sp)
+        lc = bn.LC
+        atom = bn.quo_ground(lc) if lc != 1 else bn
+        if lc != 1:
+            num = num.quo_ground(lc)
+        # cancel atoms that also appear in the numerator's factored part (only exact atom matches)
+        return Fr(num, Fr._mulD(a.D, ((atom, 1),)), a.sp)
 
     def __rtruediv__(a, b):
         return a._lift(b) / a
@@ -182,10 +242,15 @@ class Fr:
                 return p.ring.from_dict({m: QQ_I(c.x, -c.y) for m, c in p.terms()})
             perm = sp.perm
             return p.ring.from_dict({tuple(m[perm[i]] for i in range(len(m))): QQ_I(c.x, -c.y) for m, c in p.terms()})
-        return Fr(cj(s.n), None if s.d is None else cj(s.d), sp)
+        r = Fr(cj(s.n), None, sp)
+        for at, e in s.D:
+            ca = Fr(sp.R.one if sp else at.ring.one, cj(at), sp)
+            for _ in range(e):
+                r = r * ca
+        return r
 
     def nterms(s):
-        return len(s.n.terms()) + (0 if s.d is None else len(s.d.terms()))
+        return len(s.n) + sum(len(a) for a, _ in s.D)
 
     def evalf(s, point):
         """numeric value at {name: complex}"""
@@ -195,17 +260,19 @@ class Fr:
             names = [str(g) for g in p.ring.gens]
             tot = 0.0 + 0.0j
             for m, c in p.terms():
-                t = complex(float(Fraction(c.x.numerator, c.x.denominator)) if hasattr(c.x, "numerator") else float(c.x),
-                            float(Fraction(c.y.numerator, c.y.denominator)) if hasattr(c.y, "numerator") else float(c.y))
+                t = complex(float(Fraction(int(c.x.numerator), int(c.x.denominator))), float(Fraction(int(c.y.numerator), int(c.y.denominator))))
                 for e, nm in zip(m, names):
                     if e:
                         t *= point[nm] ** e
                 tot += t
             return tot
-        return ev(s.n) / (1.0 if s.d is None else ev(s.d))
+        v = ev(s.n)
+        for at, e in s.D:
+            v = v / ev(at) ** e
+        return v
 
     def __repr__(s):
-        return f"Fr({str(s.n)[:60]}{'' if s.d is None else ' / ' + str(s.d)[:40]})"
+        return f"Fr({str(s.n)[:60]} / {[(str(a)[:30], e) for a, e in s.D]})"
 
 
 class _NI(Exception):
